@@ -2,6 +2,7 @@ import BbRe.Model.FilePool
 import BbRe.Spec.ByteFile
 import BbRe.Lemmas.FilePoolRefine
 import BbRe.Lemmas.FilePoolAllocSpec
+import BbRe.Lemmas.FilePoolSeek3
 /-!
 # C15 (file half) — independent sparse files, sectors conserved
 
@@ -25,20 +26,6 @@ open BbRe.FilePool BbRe.Lemmas.FilePool BbRe.ByteFile
 
 /-- the state after a history -/
 abbrev after (c : Cfg) (ops : List (Op × Oracle)) : State := run (init c) ops
-
-/-- the configuration never changes -/
-theorem cfg_after (c : Cfg) (ops : List (Op × Oracle)) : (after c ops).cfg = c := by
-  have : ∀ (ops : List (Op × Oracle)) (s : State), (run s ops).cfg = s.cfg := by
-    intro ops
-    induction ops with
-    | nil => intro s; rfl
-    | cons x xs ih =>
-      intro s
-      show (run (step s x.1 x.2).1 xs).cfg = s.cfg
-      rw [ih]
-      unfold step
-      cases x.1 <;> dsimp only <;> (try split) <;> (try rw [finish_fst]) <;> rfl
-  exact this ops (init c)
 
 /-! ## the allocator is abstract -/
 
@@ -76,7 +63,7 @@ theorem sector_conservation (c : Cfg) (hss : 1 ≤ c.ss) (ops : List (Op × Orac
       st.allocd.Nodup ∧ st.dfree = false ∧ ∀ s ∈ st.allocd, 1 ≤ s ∧ s ≤ c.nsec := by
   intro st
   have h : Inv st := inv_run (inv_init c hss) ops
-  have hcfg : st.cfg = c := cfg_after c ops
+  have hcfg : st.cfg = c := run_cfg ops (init c)
   refine ⟨fun s => ⟨fun hs => ?_, ?_⟩, h.allocNodup, h.noDoubleFree, fun s hs => hcfg ▸ h.allocRange s hs⟩
   · obtain ⟨i, f, hf, hsf⟩ := h.noLeak s hs
     exact ⟨i, f, hf, hsf, by have := h.allocRange s hs; omega⟩
@@ -149,7 +136,7 @@ theorem isolation (c : Cfg) (hss : 1 ≤ c.ss) (ops : List (Op × Oracle)) (op :
       Eqv (absFile c.ss (step (after c ops) op o).1.dev g) (absFile c.ss (after c ops).dev g) := by
   have h : Inv (after c ops) := inv_run (inv_init c hss) ops
   obtain ⟨h1, h2⟩ := step_others h op o j g hj hg
-  rw [cfg_after] at h2
+  rw [show (after c ops).cfg = c from run_cfg ops (init c)] at h2
   exact ⟨h1, rfl, h2⟩
 
 /-- **A re-used sector is fully overwritten before it becomes readable.**  When
@@ -184,7 +171,7 @@ theorem files_wellformed (c : Cfg) (hss : 1 ≤ c.ss) (ops : List (Op × Oracle)
     (i : Nat) (f : File) (hf : (after c ops).files[i]? = some f) : WF (absFile c.ss (after c ops).dev f) := by
   have h := inv2_run (inv2_init c hss) ops hwf
   have := h.files i f hf
-  rw [cfg_after] at this
+  rw [show (after c ops).cfg = c from run_cfg ops (init c)] at this
   exact absFile_wf this
 
 /-- **`file_refines_bytes`, `NewFile`**: the new file is the byte array of the hole source's first
@@ -224,7 +211,7 @@ theorem file_refines_bytes_read (c : Cfg) (hss : 1 ≤ c.ss) (ops : List (Op × 
         (if (ByteFile.read (absFile c.ss st.dev f) off n).2 then some .eof else none) ∧
     (step st (.read i off n) o).1.files = st.files ∧ (step st (.read i off n) o).1.allocd = st.allocd := by
   intro st
-  have hcfg : st.cfg = c := cfg_after c ops
+  have hcfg : st.cfg = c := run_cfg ops (init c)
   obtain ⟨h1, h2, h3⟩ := readAt_refines (c := st.cfg) (f := f) (e := st.env o) off n (hcfg ▸ hss) hdr hhr
   rw [hcfg] at h1 h2
   unfold step
@@ -267,7 +254,7 @@ theorem file_refines_bytes_write (c : Cfg) (hss : 1 ≤ c.ss) (ops : List (Op ×
         (ByteFile.write (absFile c.ss (after c ops).dev f) off (p.take n)) ∧
       n ≤ p.length ∧ (err = none → n = p.length) ∧ err ≠ some .panic := by
   have h : Inv (after c ops) := inv_run (inv_init c hss) ops
-  have hcfg : (after c ops).cfg = c := cfg_after c ops
+  have hcfg : (after c ops).cfg = c := run_cfg ops (init c)
   have hfi := file?_some hf
   have hP := inv_part h hfi.1
   have hss' : 0 < (after c ops).cfg.ss := h.ssPos
@@ -308,7 +295,7 @@ theorem file_refines_bytes_truncate (c : Cfg) (hss : 1 ≤ c.ss) (ops : List (Op
         (ByteFile.truncate (absFile c.ss (after c ops).dev f) sz) := by
   have h2 := inv2_run (inv2_init c hss) ops hwf
   have h : Inv (after c ops) := h2.inv
-  have hcfg : (after c ops).cfg = c := cfg_after c ops
+  have hcfg : (after c ops).cfg = c := run_cfg ops (init c)
   have hfi := file?_some hf
   have hP := inv_part h hfi.1
   have hss' : 0 < (after c ops).cfg.ss := h.ssPos
@@ -345,6 +332,48 @@ theorem file_refines_bytes_len (st : State) (i : Nat) (f : File) (hf : st.file? 
   rw [ho]
   rfl
 
+/-- **`file_refines_bytes`, `GetNextRegionOffset`**: in any state reachable by a well-formed history,
+for an offset inside the file and without a hole-source seek failure, the result agrees with the
+file's data/hole map at sector granularity (`dataAt`: the sector is allocated, or the hole source
+has data there): `Data` returns the least data offset `≥ off` or `io.EOF` when there is none;
+`Hole` returns the least hole offset `≥ off`, or the file size (the implicit hole at the end).
+The scan for the next allocated sector never runs off the sector list (lists never end in a hole). -/
+theorem file_refines_bytes_seek (c : Cfg) (hss : 1 ≤ c.ss) (ops : List (Op × Oracle))
+    (hwf : ∀ x ∈ ops, WFOp x.1) (i : Nat) (f : File) (hf : (after c ops).file? i = some f) (off : Nat)
+    (hoff : off < f.size) (data : Bool) (o : Oracle) (ho : o.answers = []) (hs : o.faults.hs = none) :
+    (data = true →
+        (∃ j, (step (after c ops) (.seek i off data) o).2 = .offset (.ok j) ∧ off ≤ j ∧ dataAt c f j ∧
+            ∀ k, off ≤ k → k < j → ¬ dataAt c f k) ∨
+          ((step (after c ops) (.seek i off data) o).2 = .offset (.error .eof) ∧
+            ∀ k, off ≤ k → ¬ dataAt c f k)) ∧
+      (data = false →
+        ∃ j, (step (after c ops) (.seek i off data) o).2 = .offset (.ok j) ∧ off ≤ j ∧ j ≤ f.size ∧
+          (∀ k, off ≤ k → k < j → dataAt c f k) ∧ (j < f.size → ¬ dataAt c f j)) := by
+  have h2 := inv2_run (inv2_init c hss) ops hwf
+  have h3 := inv3_run (inv3_init c hss) ops
+  have hcfg : (after c ops).cfg = c := run_cfg ops (init c)
+  have hfi := file?_some hf
+  have hok := h2.files i f hfi.1
+  obtain ⟨s1, s2, s3⟩ := seek_spec (c := (after c ops).cfg) (f := f) (e := (after c ops).env o) off data
+    h2.inv.ssPos hs (h3.2 i f hfi.1) hok.1 hoff
+  have hstep : (step (after c ops) (.seek i off data) o).2 =
+      .offset (seek (after c ops).cfg f ((after c ops).env o) off data).2 := by
+    unfold step finish
+    dsimp only
+    rw [hf]
+    dsimp only
+    rw [s1]
+    have : ((after c ops).env o).answers = [] := ho
+    rw [this]; rfl
+  rw [hstep]
+  rw [hcfg] at s2 s3
+  refine ⟨fun hd => ?_, fun hd => ?_⟩
+  · rcases s2 hd with ⟨j, e1, e2, e3, e4⟩ | ⟨e1, e2⟩
+    · exact Or.inl ⟨j, by rw [hcfg, e1], e2, e3, e4⟩
+    · exact Or.inr ⟨by rw [hcfg, e1], e2⟩
+  · obtain ⟨j, e1, e2, e3, e4, e5⟩ := s3 hd
+    exact ⟨j, by rw [hcfg, e1], e2, e3, e4, e5⟩
+
 /-! ## Non-vacuity: a concrete history meeting the hypotheses used above
 
 Two files over a non-zero hole source on a 4-sector device with 2-byte sectors: a fragmented
@@ -373,6 +402,9 @@ example : (step (after ⟨2, 4⟩ exHist) (.write 1 3 [1, 2, 3]) { answers := [.
 example : (step (after ⟨2, 4⟩ exHist) (.trunc 0 1) ({} : Oracle)).2 = .done none := rfl
 /-- a read through file 0 sees hole-source byte 36 and the written 7 -/
 example : (step (after ⟨2, 4⟩ exHist) (.read 0 0 9) ({} : Oracle)).2 = .read [36, 7] (some .eof) := rfl
+/-- `GetNextRegionOffset`: file 0 = [hole-source data byte | sector 2]; no hole below the size -/
+example : (step (after ⟨2, 4⟩ exHist) (.seek 0 0 false) ({} : Oracle)).2 = .offset (.ok 2) ∧
+    (step (after ⟨2, 4⟩ exHist) (.seek 1 1 true) ({} : Oracle)).2 = .offset (.ok 1) := ⟨rfl, rfl⟩
 /-- hypothesis `hclosed` of `all_closed_nothing_allocated` -/
 example : ∀ f ∈ (after ⟨2, 4⟩ (exHist ++ [(.close 0, ({} : Oracle)),
     (.close 1, { faults := { hc := true } })])).files, f.closed = true := by decide
